@@ -48,9 +48,9 @@ const modPath = "github.com/ilius/libgostarcal"
 
 var srcUnits = []srcUnit{
 	{dir: "utils", path: modPath + "/utils", lean: "Utils", pre: "utils",
-		funcs: []string{"Mod", "Div", "Divmod", "IntMin", "GetHmsBySeconds"}},
+		funcs: []string{"Mod", "Div", "Divmod", "IntMin", "GetHmsBySeconds", "MonthListIsValid", "DayListIsValid", "WeekDayListIsValid"}},
 	{dir: ".", path: modPath, lean: "Lib", pre: "lib",
-		funcs: []string{"GetTotalSeconds", "GetFloatHour", "FloatHourToHMS"}},
+		funcs: []string{"GetTotalSeconds", "GetFloatHour", "FloatHourToHMS", "toUint8", "HMS.IsValid", "Date.IsValid"}},
 	{dir: "interval", path: modPath + "/interval", lean: "Interval", pre: "interval",
 		funcs: []string{"Less"}},
 	{dir: "cal_types/julian", path: modPath + "/cal_types/julian", lean: "Julian", pre: "julian",
@@ -133,6 +133,8 @@ type srcPkg struct {
 	tables  map[types.Object][]string
 	scalars map[types.Object]string // Lean type
 	written map[types.Object]bool
+	// method names declared on several receiver types: listed as `Recv.Name` in srcUnit.funcs
+	ambiguous map[string]bool
 }
 
 func loadSrcPkg(u srcUnit) (*srcPkg, error) {
@@ -173,11 +175,23 @@ func loadSrcPkg(u srcUnit) (*srcPkg, error) {
 		return nil, fmt.Errorf("type-checking %s: %v", u.path, err)
 	}
 	sp := &srcPkg{unit: u, fset: fset, files: files, info: info, pkg: tp, decls: map[string]*ast.FuncDecl{},
-		tables: map[types.Object][]string{}, scalars: map[types.Object]string{}, written: map[types.Object]bool{}}
+		tables: map[types.Object][]string{}, scalars: map[types.Object]string{}, written: map[types.Object]bool{}, ambiguous: map[string]bool{}}
 	for _, f := range files {
 		for _, d := range f.Decls {
 			if fd, ok := d.(*ast.FuncDecl); ok && fd.Body != nil {
+				if _, dup := sp.decls[fd.Name.Name]; dup {
+					sp.ambiguous[fd.Name.Name] = true
+				}
 				sp.decls[fd.Name.Name] = fd
+				if fd.Recv != nil && len(fd.Recv.List) == 1 {
+					rt := fd.Recv.List[0].Type
+					if st, ok := rt.(*ast.StarExpr); ok {
+						rt = st.X
+					}
+					if id, ok := rt.(*ast.Ident); ok {
+						sp.decls[id.Name+"."+fd.Name.Name] = fd
+					}
+				}
 			}
 		}
 	}
@@ -279,6 +293,7 @@ type fnTrans struct {
 	globals map[types.Object]bool // package scalars read (become parameters)
 	calls   map[string]bool       // Lean names of translated functions called
 	tmp     int
+	inRange bool // translating the body of a `for _, v := range` loop: `return e` is `pure (some e)`
 }
 
 var leanKeywords = map[string]bool{"end": true, "from": true, "at": true, "do": true, "then": true, "else": true, "if": true,
@@ -707,16 +722,26 @@ func (t *fnTrans) expr(e ast.Expr) lexpr {
 		if !ok {
 			bail("call of %s (package not translated)", qual)
 		}
-		listed := false
-		for _, n := range tp.unit.funcs {
-			if n == fn.Name() {
-				listed = true
+		listed := ""
+		recvName := ""
+		if sig.Recv() != nil {
+			rt := sig.Recv().Type()
+			if p, ok := rt.(*types.Pointer); ok {
+				rt = p.Elem()
+			}
+			if n, ok := rt.(*types.Named); ok {
+				recvName = n.Obj().Name()
 			}
 		}
-		if !listed {
+		for _, n := range tp.unit.funcs {
+			if n == fn.Name() || (recvName != "" && n == recvName+"."+fn.Name()) {
+				listed = n
+			}
+		}
+		if listed == "" {
 			bail("call of %s (not in the list of translated functions)", qual)
 		}
-		ln := tp.unit.pre + "_" + fn.Name()
+		ln := tp.unit.pre + "_" + strings.ReplaceAll(listed, ".", "_")
 		t.calls[ln] = true
 		return lexpr{"(" + ln + "@GLOBALS@ " + strings.Join(args, " ") + ")", true}
 	}
@@ -835,6 +860,12 @@ func (t *fnTrans) stmts(list []ast.Stmt, k string, depth int, nres int) string {
 	case *ast.ReturnStmt:
 		if len(x.Results) == 0 {
 			bail("bare return")
+		}
+		if t.inRange {
+			if len(x.Results) != 1 {
+				bail("multi-value return inside a range loop")
+			}
+			return ind(depth) + "pure (some " + t.val(x.Results[0]) + ")\n"
 		}
 		if len(x.Results) == 1 {
 			r := t.expr(x.Results[0])
@@ -1004,6 +1035,46 @@ func (t *fnTrans) stmts(list []ast.Stmt, k string, depth int, nres int) string {
 		thenS := t.stmts(append(append([]ast.Stmt{}, x.Body.List...), rest...), k, depth+1, nres)
 		elseS := t.stmts(append(elseList, rest...), k, depth+1, nres)
 		return out + ind(depth) + "if " + cs + " then\n" + thenS + ind(depth) + "else\n" + elseS
+	case *ast.RangeStmt:
+		// `for _, v := range xs { … return e … }` over a slice of integers, the body assigning nothing outside itself:
+		// the first iteration that returns decides; otherwise the statements after the loop run
+		if t.inRange {
+			bail("nested range loop")
+		}
+		if x.Key != nil {
+			if id, ok := x.Key.(*ast.Ident); !ok || id.Name != "_" {
+				bail("range loop that uses the index")
+			}
+		}
+		vid, ok := x.Value.(*ast.Ident)
+		if !ok || x.Tok != token.DEFINE {
+			bail("range loop without a fresh value variable")
+		}
+		xt := info.Types[x.X].Type
+		if sl, ok := xt.Underlying().(*types.Slice); !ok || !isInt(sl.Elem()) {
+			bail("range over %s", xt)
+		}
+		ast.Inspect(x.Body, func(n ast.Node) bool {
+			switch n.(type) {
+			case *ast.BranchStmt, *ast.ForStmt:
+				bail("break / continue / nested loop inside a range loop")
+			}
+			return true
+		})
+		set := map[types.Object]bool{}
+		t.assigned(x.Body.List, map[types.Object]bool{}, set)
+		if len(set) > 0 {
+			bail("range loop that assigns a variable declared outside it")
+		}
+		vn := t.nameOf(info.Defs[vid])
+		t.inRange = true
+		body := t.stmts(x.Body.List, "pure none", depth+2, nres)
+		t.inRange = false
+		t.tmp++
+		rn := fmt.Sprintf("_r%d", t.tmp)
+		out := ind(depth) + "let " + rn + " ← GoSem.forRange " + t.val(x.X) + " (fun " + vn + " => do\n" + body + ind(depth+1) + ")\n"
+		out += ind(depth) + "match " + rn + " with\n" + ind(depth) + "| some _v => pure _v\n" + ind(depth) + "| none =>\n"
+		return out + t.stmts(rest, k, depth+1, nres)
 	case *ast.ForStmt:
 		if x.Init != nil || x.Post != nil {
 			bail("three-clause for loop")
@@ -1063,10 +1134,14 @@ type srcDef struct {
 }
 
 func translateFunc(sp *srcPkg, all map[string]*srcPkg, name string) (d srcDef) {
-	d.lean = sp.unit.pre + "_" + name
+	d.lean = sp.unit.pre + "_" + strings.ReplaceAll(name, ".", "_")
 	fd, ok := sp.decls[name]
 	if !ok {
 		d.err = "no such function in the package"
+		return
+	}
+	if sp.ambiguous[name] {
+		d.err = "several methods of this name: list it as Recv.Name"
 		return
 	}
 	p := sp.fset.Position(fd.Pos())
